@@ -27,5 +27,10 @@ def holder_get_array {V : Type} (m dk : Option V) (hasDisk : Bool) : Option V :=
 def holder_set_to_disk {V : Type} (storable : Bool) (m : Option V) (pressure : Bool) : Bool :=
   (storable && m.isNone && pressure)
 
-def translated : List (String × Bool) := [("checkForCycle", true), ("variable_get_formula", true), ("holder_get_array", true), ("holder_set_to_disk", true)]
+/-- `Simulation.purge_cache_of_invalid_values` (openfisca_core/simulations/simulation.py): nothing while the stack is not empty; else every marked (variable, period) is deleted through its holder (`deleteOne`), then the marks are reset (`reset`) -/
+def purge_cache_of_invalid_values {S N I : Type} (stack : List N) (inval : List I) (deleteOne : S → I → S) (reset : S → S) (s : S) : S :=
+  if (!stack.isEmpty) then s else
+  reset (inval.foldl deleteOne s)
+
+def translated : List (String × Bool) := [("checkForCycle", true), ("variable_get_formula", true), ("holder_get_array", true), ("holder_set_to_disk", true), ("purge_cache_of_invalid_values", true)]
 end OFCore.Generated.Engine
